@@ -35,6 +35,10 @@ CHECKS = {
          "Tie: recurring jobs on the real Worker over virtual time (periods × duration profiles × outcome patterns × deferred_until), successorOk on every requeue, message count after every iteration, spacingOk on consecutive scheduled times.",
          "cron branch not exercised (croniter absent); spacing clause PARTIAL (known finding F5).",
          "Lean 4 proof (arithmetic + case analysis) + differential correspondence over virtual time", "§5 C06"),
+ "C07": ("Lean: params_roundtrip / bucket round trips at the JSON-tree level (every field, every optional subset), td_float_roundtrip (durations ≤ 100 y through total_seconds()/timedelta(seconds=float) for EVERY rounding with relative error ≤ 2^-53, over ℚ, Mathlib), redis_names_roundtrip, names_unambiguous, topic_prefix_exact, charclass_no_colon (character classes re-extracted from the live regexes on every run), marker_check/deconstruct, redis_end_to_end, rabbit_end_to_end. "
+         "Tie: implementation encodings parsed and typed field by field vs the Lean tree; decode∘encode on the implementation; the float assumption checked on thousands of real doubles; Redis name functions/validators/marker vs the model; Job.enqueue→consume on in-memory, fake-Redis and fake-RabbitMQ brokers (inline and bucket transport, all priorities, generated argument values) against an independently written payload document.",
+         "json / isoformat / float repr are trusted library behaviour; Redis and RabbitMQ servers are in-process fakes (assumption sets R, A). One genuine defect (F14, priority 0 on RabbitMQ) repaired by fix: commit 8741207.",
+         "Lean 4 proof (incl. a Mathlib-based rational/floor argument) + differential correspondence on three brokers", "§5 C07"),
  "C09": ("Lean: transition system of the runner's slot bookkeeping (deliver / pause / acquire / hand-over / wake chain / spawn / done / cancellation; asyncio.Semaphore 3.12 semantics); invariant slots-conserved ∧ no-blocked-waiter-with-a-free-slot ∧ started = processed + in-flight for EVERY event sequence: inflight_le_limit, no_lost_wakeup, progress, done_frees. "
          "Tie: step-level acceptor — the real runner's counters after EVERY event-loop callback of real Worker runs (limits × queues × durations × arrivals × pause latency × store faults) must be explained by model events (subset construction over hidden state); running actor bodies ≤ limit at every callback; all jobs executed before the bound.",
          "liveness on the implementation observed up to a virtual-time bound; semaphore fairness trusted.",
